@@ -3,7 +3,7 @@
    Model/LibAll.v libfull: LibCore, arraySort (which CALLS BACK: the premises are about exactly that) and the lifted
    array / object / string functions of LibSeq. *)
 From Coq Require Import List ZArith Lia.
-From BS Require Import Model.Base Model.Num Model.Arith Model.ExprParser Model.Script Model.Interp Model.LibCore Model.LibCall Model.LibAll
+From BS Require Import Model.Base Model.Num Model.Arith Model.ExprParser Model.Script Model.Interp Model.LibCore Model.LibCall Model.LibMore Model.LibAll
                        Proofs.Fuel Proofs.C01 Proofs.Blind Proofs.C09 Proofs.LibCall.
 Local Open Scope Z_scope.
 
@@ -24,6 +24,35 @@ Proof.
   destruct r; try destruct (c_debug cfg); reflexivity.
 Qed.
 
+(* ---- GENERIC: a library function that is pure (Model/LibMore.v lift_pure: it reads the two heaps and its arguments only -
+   not the callback, not the statement counter - and its effect is new heaps plus appended log lines) neither sees the
+   statement counter nor moves it.  The four premises follow from these two facts alone (see the libfull_* theorems). ---- *)
+Lemma fold_add_log_upd lg : forall w k, fold_left add_log lg (upd_count w k) = upd_count (fold_left add_log lg w) k.
+Proof. induction lg as [|s lg IH]; intros w k; [reflexivity|]. cbn [fold_left]. rewrite <- IH. reflexivity. Qed.
+
+Lemma fold_add_log_count lg : forall w, w_count (fold_left add_log lg w) = w_count w.
+Proof. induction lg as [|s lg IH]; intros w; [reflexivity|]. cbn [fold_left]. rewrite IH. reflexivity. Qed.
+
+Lemma lift_pure_frame p name args w k :
+  lift_pure p name args (upd_count w k) = (fst (lift_pure p name args w), upd_count (snd (lift_pure p name args w)) k).
+Proof.
+  unfold lift_pure. cbn [w_arrs w_objs upd_count].
+  destruct (p name args (w_arrs w) (w_objs w)) as [r [[a o] lg]]. cbn [fst snd].
+  change (upd_objs (upd_arrs (upd_count w k) a) o) with (upd_count (upd_objs (upd_arrs w a) o) k).
+  rewrite fold_add_log_upd. reflexivity.
+Qed.
+
+Lemma lift_pure_count p name args w : w_count (snd (lift_pure p name args w)) = w_count w.
+Proof.
+  unfold lift_pure. destruct (p name args (w_arrs w) (w_objs w)) as [r [[a o] lg]]. cbn [snd].
+  rewrite fold_add_log_count. reflexivity.
+Qed.
+
+Lemma libmore_frame cfg name args w k :
+  libmore cfg name args (upd_count w k) = (fst (libmore cfg name args w), upd_count (snd (libmore cfg name args w)) k).
+Proof. apply lift_pure_frame. Qed.
+Lemma libmore_count cfg name args w : w_count (snd (libmore cfg name args w)) = w_count w.
+Proof. apply lift_pure_count. Qed.
 
 (* ---- arraySort: instances of Proofs/LibCall.v lib_sort_rel ---- *)
 Lemma set_arr_count w l x : w_count (set_arr w l x) = w_count w.
@@ -167,14 +196,17 @@ Qed.
 (* ---- the combined library ---- *)
 Lemma libfull_unfold cfg cb name args w :
   libfull cfg cb name args w =
-  if str_mem name core_names then libcore cfg cb name args w
+  if text_override name args then libmore cfg name args w
+  else if str_mem name core_names then libcore cfg cb name args w
   else if op_is name "arraySort" then lib_sort cfg cb args w
-  else if str_mem name Q.modelled_functions then lift_seq cfg name args w else (LOracle, w).
+  else if str_mem name Q.modelled_functions then lift_seq cfg name args w
+  else if str_mem name more_names then libmore cfg name args w else (LOracle, w).
 Proof. reflexivity. Qed.
 
 Theorem libfull_fuel_monotone cfg : lib_fuel_monotone (libfull cfg).
 Proof.
   intros cb1 cb2 Hcb name args w. rewrite !libfull_unfold.
+  destruct (text_override name args); [left; reflexivity|].
   destruct (str_mem name core_names); [left; reflexivity|].
   destruct (op_is name "arraySort"); [apply lib_sort_fuel_monotone; exact Hcb|]. left. reflexivity.
 Qed.
@@ -182,14 +214,17 @@ Qed.
 Theorem libfull_monotone cfg : lib_monotone (libfull cfg).
 Proof.
   intros cb Hcb name args w. rewrite libfull_unfold.
+  destruct (text_override name args); [rewrite libmore_count; lia|].
   destruct (str_mem name core_names); [rewrite libcore_count; lia|].
   destruct (op_is name "arraySort"); [apply lib_sort_monotone; exact Hcb|].
-  destruct (str_mem name Q.modelled_functions); [rewrite lift_seq_count; lia|cbn; lia].
+  destruct (str_mem name Q.modelled_functions); [rewrite lift_seq_count; lia|].
+  destruct (str_mem name more_names); [rewrite libmore_count; lia|cbn; lia].
 Qed.
 
 Theorem libfull_lockstep cfg : lib_lockstep (libfull cfg) cfg.
 Proof.
   intros cb1 cb2 Hcb Hm name args w. rewrite !libfull_unfold.
+  destruct (text_override name args); [left; reflexivity|].
   destruct (str_mem name core_names); [left; reflexivity|].
   destruct (op_is name "arraySort"); [apply lib_sort_lockstep; assumption|]. left. reflexivity.
 Qed.
@@ -197,12 +232,16 @@ Qed.
 Theorem libfull_count_blind cfg : lib_count_blind (libfull cfg).
 Proof.
   intros cb1 cb2 Hcb name args w wm Hw. rewrite !libfull_unfold.
+  destruct (text_override name args).
+  { rewrite (weq_repr _ _ Hw). rewrite libmore_frame. split; [reflexivity|]. cbn [snd]. apply weq_upd. }
   destruct (str_mem name core_names); [apply (libcore_count_blind cfg cb1 cb2 Hcb name args w wm Hw)|].
   destruct (op_is name "arraySort"); [apply lib_sort_count_blind; assumption|].
   rewrite (weq_repr _ _ Hw).
   destruct (str_mem name Q.modelled_functions).
   - rewrite lift_seq_frame. split; [reflexivity|]. cbn [snd]. apply weq_upd.
-  - split; [reflexivity|]. cbn [snd]. apply weq_upd.
+  - destruct (str_mem name more_names).
+    + rewrite libmore_frame. split; [reflexivity|]. cbn [snd]. apply weq_upd.
+    + split; [reflexivity|]. cbn [snd]. apply weq_upd.
 Qed.
 
 (* ---- the two library contracts of the `for` simulation (Proofs/C01for.v) hold for the combined library ---- *)
